@@ -73,6 +73,11 @@ def gen(rng, k):
         weak = rng.random(len(pts)) < 0.15
         weak[0] = rng.random() < 0.1
         elev[weak] = rng.uniform(0, 0.09, weak.sum())
+    on_limit = kind != "clean" and (k // 7) % 3 == 2
+    if on_limit:      # some elevations exactly equal to min_weight (not below it: they are not weak)
+        sel_ = rng.random(len(pts)) < 0.3
+        sel_[int(rng.integers(len(pts)))] = True
+        elev[sel_ & (elev >= 0.1)] = 0.1
     p = {"pts": pts, "elev": elev, "zero": zero, "kind": kind, "true_a": a, "true_b": b,
          "tolerance": float(rng.uniform(1.0, 3.0)), "min_match": int(rng.integers(2, 5)),
          "min_angle": float(rng.uniform(0.1, 0.5)), "min_delta": float(rng.choice([0, 5, 10])),
